@@ -285,7 +285,7 @@ func (r *rig) judge() *gx.Outcome {
 						out.Violate("C05", sig, "partition %d epoch %d: batch with first sequence %d re-sent with different records: %v then %v (%s); %s", b.Partition, b.Epoch, b.FirstSeq, prev.ids, ids, cfg, summary())
 						prev.ids = ids // the re-batched form supersedes the original for the continuity rule below
 					}
-					prev.connErr = connErr
+					prev.connErr = prev.connErr || connErr
 					continue
 				}
 				l := seenB[k]
@@ -295,6 +295,13 @@ func (r *rig) judge() *gx.Outcome {
 				}
 				if b.FirstSeq != want {
 					sig := "sequence-gap" + bumped
+					for _, x := range l {
+						if x.connErr && bumped == "" {
+							// consequence of the known re-batching after a connection-level failure: the messages of the
+							// failed batch come back one by one and are merged with later ones under their old numbers
+							sig = "sequence-gap after-connection-error-rebatch"
+						}
+					}
 					if b.Epoch > 0 && len(l) == 0 {
 						// known class: the epoch was bumped (a sequenced message failed) while this message
 						// already carried a sequence number of the previous epoch
@@ -381,6 +388,9 @@ func (r *rig) judge() *gx.Outcome {
 			}
 			sb.WriteString("\n")
 		}
+		for _, pn := range r.c.Panics {
+			fmt.Fprintf(&sb, "  PANIC: %s\n", firstLines(pn, 14))
+		}
 		out.Detail = sb.String()
 	}
 	if hang {
@@ -416,4 +426,12 @@ func firstLine(s string) string {
 		return s[:i]
 	}
 	return s
+}
+
+func firstLines(s string, n int) string {
+	l := strings.Split(s, "\n")
+	if len(l) > n {
+		l = l[:n]
+	}
+	return strings.Join(l, "\n    ")
 }
